@@ -118,4 +118,25 @@ theorem standDown_removed (g : Graph) (ids : List Key) (k : Key) (F : List Nat) 
   rw [← hk.1, ← hk.2]
   exact this
 
+/-- ... and its DB history is erased in the flows it was removed in -- its own matched flows, not the flows named by
+the command -/
+theorem standDown_removed_eq (g : Graph) (ids : List Key) (k : Key) (F : List Nat) (st : State) (any : Bool) (ck : Key)
+    (c : Proxy) (h : st.get? ck.1 ck.2 = some c) (hf : (c.matchFlows F).isEmpty = false)
+    (hc : childChanged c k = true) (hr : stillReady c k F = false)
+    (hs : (ids.contains ck || ((unsetChild c k).reset (queued := some false)).anySatisfied) = false) :
+    standDown g ids k F (st, any) ck =
+      ((removeTaskFromFlows
+          (remove g ((st.put (unsetChild c k)).put ((unsetChild c k).reset (queued := some false)))
+            ((unsetChild c k).reset (queued := some false)))
+          ((unsetChild c k).reset (queued := some false)).name ((unsetChild c k).reset (queued := some false)).pt
+          (c.matchFlows F)).1, true) := by
+  unfold standDown
+  unfold childChanged at hc
+  unfold stillReady unsetChild at hr
+  unfold unsetChild at hs
+  simp only [h, hf, Bool.false_eq_true, if_false, hc, Bool.not_true]
+  rw [if_neg (by rw [hr]; decide)]
+  rw [if_neg (by rw [hs]; decide)]
+  rfl
+
 end CylcModel.Sched3Rm
